@@ -8,7 +8,7 @@ from contracts import report_native, c10_codec, c01_names
 def custom_native(ip, runner):
     code = report_native.C01 % {'native': os.path.join(VERIF, 'native')}
     return [native_bounded(runner, 'report-names', 'per category the text and JSON reports show exactly the non-blank advertised names, once per occurrence, in order; banner and compression as sent; SSH-1 masks decoded to names',
-                           code, 'peers covering every database name (gss-* instantiated), unknown/duplicate/blank/300-char names, single and empty lists x {server, client} x {plain, batch, verbose, JSON}; 14 SSH-1 mask pairs',
+                           code, 'peers covering every database name (gss-* instantiated), repeated unknown names, differing client/server direction lists, 12 seeded random peers (120 in the thorough tier), unknown/duplicate/blank/300-char names, single and empty lists x {server, client} x {plain, batch, verbose, JSON}; 14 SSH-1 mask pairs',
                            'ssh_audit:output')]
 
 
